@@ -14,7 +14,12 @@ import (
 
 // second reference: goldmark's own HTML rendering of the same text with the same extensions.
 
-func goldmarkHTML(src []byte, o Opts) (string, error) {
+func goldmarkHTML(src []byte, o Opts) (out string, err error) {
+	defer func() { // the reference must never take the process down: a parser panic is "no second reading"
+		if x := recover(); x != nil {
+			out, err = "", fmt.Errorf("goldmark panicked: %v", x)
+		}
+	}()
 	var ext []goldmark.Extender
 	if o.GFM {
 		ext = append(ext, extension.GFM)
